@@ -62,7 +62,7 @@ def _templates(name):
         out.append((H.using(**kw) if kw else H).hash("pw", **ctxkw(H)))
     except Exception:
         out.append(H.hash("pw", **ctxkw(H)))
-    for ident in getattr(b, "ident_values", ())[:3]:
+    for ident in getattr(b, "ident_values", ())[:6]:
         try:
             h = H.using(ident=ident, **kw).hash("pw", **ctxkw(H))
             if h not in out:
@@ -338,7 +338,7 @@ def ob_concrete(names):
     for name in names:
         H, tmpls = templates(name)
         kw = ctxkw(H)
-        for t in tmpls[:2]:
+        for t in tmpls:
             muts = set()
             for i in range(len(t) + 1):
                 muts.add(t[:i])                      # truncation
@@ -405,6 +405,61 @@ def _scram_unconsulted(t, pos, kind):
     return False
 
 
+# ------------------------------------------------------------------ case-mapping expansions (one character standing for two or three)
+EXPANDERS = [c for c in map(chr, range(0x80, 0x30000))
+             if (c.upper() != c and c.upper().isascii() and len(c.upper()) > 1) or (c.lower() != c and c.lower().isascii() and len(c.lower()) > 1)]
+
+
+def replay_expanders(name):
+    """ß, the f-ligatures ... upper- or lower-case to two or three ASCII letters: a hasher that case-folds before it validates
+    would take such a character for the letters it expands to.  A digest field is overwritten with the expansion (giving a
+    well-shaped hash of an unknown password) and then written with the single character instead: that text must not be
+    identified, parsed or verified like the ASCII one"""
+    import warnings
+    from passlib import registry
+    warnings.simplefilter("ignore")
+    H = registry.get_crypt_handler(name)
+    base = getattr(H, "wrapped", H)
+    kw = ctxkw(H)
+    _, tmpls = templates(name)
+    if not tmpls or not hasattr(H, "from_string") and not hasattr(base, "from_string"):
+        return False
+    t = tmpls[0]
+    for c in EXPANDERS:
+        for exp in set(x for x in (c.upper(), c.lower()) if x != c and x.isascii() and len(x) > 1):
+            for case in (exp, exp.lower(), exp.upper()):
+                for pos in (len(t) - len(case), len(t) - len(case) - 3, max(0, len(t) // 2)):
+                    if pos < 0:
+                        continue
+                    ascii_form = t[:pos] + case + t[pos + len(case):]
+                    try:
+                        if not H.identify(ascii_form):
+                            continue
+                        canon = (base.from_string(H._unwrap_hash(ascii_form) if hasattr(H, "_unwrap_hash") else ascii_form)).to_string()
+                    except Exception:
+                        continue
+                    alias = t[:pos] + c + t[pos + len(case):]
+                    try:
+                        canon2 = (base.from_string(H._unwrap_hash(alias) if hasattr(H, "_unwrap_hash") else alias)).to_string()
+                    except (ValueError, TypeError):
+                        continue
+                    except Exception as e:
+                        return "%s: %r raises %s: %s" % (name, alias, type(e).__name__, e)
+                    if canon2 == canon:
+                        return "%s: %r (U+%04X standing for %r) is parsed as the hash %r" % (name, alias, ord(c), case, canon)
+    return False
+
+
+def ob_expanders(names):
+    for n in names:
+        r = replay_expanders(n)
+        if r:
+            return violation("case-mapping expansion accepted: %s" % r, "mutate:%s:accepts-altered:case-expansion" % n,
+                             {"module": "harness.c08", "func": "replay_expanders", "args": {"name": n}})
+    return ok("%d hashers: none takes a character whose case mapping is several ASCII letters (%d such characters) for those letters" %
+              (len(names), len(EXPANDERS)), paths=len(names) * len(EXPANDERS), verdict="finite-enumeration", nontrivial=False)
+
+
 def _by_design(name, orig, mutated):
     """documented behaviour that is not an alteration of what verify() consults: scram stores one digest per algorithm and
     verify() (full=False) checks the strongest one only, so edits confined to the other digests are outside its contract"""
@@ -460,6 +515,8 @@ def run(tier, seed, t0, only=None):
             for i in range(0, len(ps), 24):
                 obs.append(Ob("mutate[%s#%d,bsub,%d..]" % (n, ti, ps[i]), ob_mutate,
                               {"name": n, "tindex": ti, "kind": "bsub", "positions": ps[i:i + 24]}, timeout=1800))
+    for i in range(0, len(names), 12):
+        obs.append(Ob("case-expansions#%d" % (i // 12), ob_expanders, {"names": names[i:i + 12]}, timeout=900))
     for i in range(0, len(names), 6):
         obs.append(Ob("concrete#%d" % (i // 6), ob_concrete, {"names": names[i:i + 6]}, timeout=1800))
     if only:
